@@ -225,7 +225,12 @@ func (r *Response) Encode(writer io.Writer) error {
 		parts[0] = "NO"
 	}
 	if r.Message != "" {
-		parts[0] += " " + r.Message
+		// the whole response must fit into MaxRequestLength bytes or the receiver won't be able to decode it
+		msg := r.Message
+		if len(msg) > MaxRequestLength-3 {
+			msg = msg[:MaxRequestLength-3]
+		}
+		parts[0] += " " + msg
 	}
 	return encodeLengthEncodedStrings(writer, parts)
 }
